@@ -1429,9 +1429,23 @@ package router
 //@   callsite Write: [C13:over-limit-or-refused-by-the-limiter] arg1 == gB && len(arg1) >= 14 && BE16(arg1, 0) == uint16(len(arg1) - 2)
 //@   callsite go: [C13,C15:refused-query-not-handled] gCC <= s.maxConcurrent && nAsk == 1 && gAdm == nil
 //@   callsite go: [C03,C20:each-query-goroutine-has-its-own-variables] capturesVar(m) && capturesVar(rc) && !capturesLoopVar(m) && !capturesLoopVar(rc)
+// every frame of a connection is read through the ONE buffered reader made for it (what it has read ahead -
+// pipelined queries, the start of a frame cut by segmentation - stays with the connection), and that reader goes
+// back to the pool only when the connection is done
+//@   ghost nBR int = 0
+//@   ghost gBR *bufio.Reader = nil
+//@   oncall NewBR1K: nBR = nBR + 1
+//@   aftercall NewBR1K: gBR = ret0
+//@   callsite NewBR1K: [C13:one-buffered-reader-per-connection] nBR == 0 && nQ == 0
+//@   callsite ReadMsgFromTCP: [C13:every-frame-read-through-the-connections-reader] nBR == 1 && arg0 == gBR
+//@   ghost nRelBR int = 0
+//@   oncall ReleaseBR1K: nRelBR = nRelBR + 1
+//@   callsite ReadMsgFromTCP: [C13,C20:reader-still-owned-while-frames-are-read] nRelBR == 0
+//@   callsite ReleaseBR1K: [C20:gives-back-its-own-reader-once] arg0 == gBR && nRelBR == 0
 //@   loop 1:
 //@     modifies *
-//@     invariant s != nil && routerReady(s.r) && s.logger != nil && c != nil && br != nil && nAns == nQ && nQConv >= 0
+//@     invariant s != nil && routerReady(s.r) && s.logger != nil && c != nil && nAns == nQ && nQConv >= 0
+//@     invariant [reader] nBR == 1 && gBR != nil && nRelBR == 0
 
 // the per-connection goroutine: handles exactly the connection that was admitted
 //@ closure tcpServer.run$1
